@@ -257,7 +257,12 @@ fn to_rhs(s: &PathSegment, self_ty: &Type) -> Type {
     self_ty.clone()
 }
 fn ref_type(ty: &Type) -> Type {
-    parse_quote!(&#ty)
+    match ty {
+        // `&dyn A + B` is not a type, `&(dyn A + B)` is.
+        Type::TraitObject(t) if t.bounds.len() > 1 => parse_quote!(&(#ty)),
+        Type::ImplTrait(t) if t.bounds.len() > 1 => parse_quote!(&(#ty)),
+        _ => parse_quote!(&#ty),
+    }
 }
 fn ref_type_with(ty: &Type, is_ref: bool) -> Type {
     if is_ref {
